@@ -190,7 +190,15 @@ func (g *Gen) HistoryBulk(size int) []E {
 	// the query: filters and/or sorts on the field being rewritten, or on another one
 	v := ANum(g.smallN[g.r.Intn(nvals)], "i")
 	var q []interface{}
-	switch g.r.Intn(6) {
+	switch g.r.Intn(7) {
+	case 6: // membership in a list that names one number several times, in several representations
+		n := toInt(v[1])
+		list := make([]interface{}, 0)
+		for _, rep := range g.U.Reps(n) {
+			list = append(list, []interface{}{"lit", ANum(n, rep)})
+		}
+		list = append(list, []interface{}{"lit", v}, []interface{}{"lit", ANum(g.smallN[g.r.Intn(nvals)], "f")})
+		q = []interface{}{[]interface{}{"where", []interface{}{"un", "in", B(g.pick([]string{"x", "k"})), []interface{}{"list", list}}}}
 	case 0: // everything
 		q = []interface{}{}
 	case 1:
